@@ -35,7 +35,7 @@ NoApp == [started |-> 0, kind |-> "", dup |-> FALSE,
           done |-> "", parked |-> "", firstRecv |-> "",
           rstart |-> FALSE, status |-> 0, hdrs |-> <<>>, trailersFlag |-> FALSE,
           called |-> 0, okBytes |-> 0, final |-> FALSE, sendExc |-> 0, sendOk |-> 0,
-          lastCall |-> [type |-> ""], discCode |-> -1]
+          lastCall |-> [type |-> ""], discCode |-> -1, discEarly |-> FALSE]
 
 (* ---- per response as the independent client parser saw it -------------- *)
 NoWire == [heads |-> 0, status |-> 0, hdrs |-> <<>>, framing |-> "", cl |-> -1,
@@ -102,6 +102,9 @@ OStepApp(o, ev) ==
                              !.recvd = IF isBody THEN @ + ev.len ELSE @,
                              !.ended = IF isBody /\ ~ev.more THEN @ + 1 ELSE @,
                              !.disc = IF isDisc THEN @ + 1 ELSE @,
+                             \* told to go away before it had handed over its last message (a disconnect after
+                             \* that is how every exchange ends)
+                             !.discEarly = IF isDisc /\ s.disc = 0 THEN ~s.final ELSE @,
                              !.discCode = IF isDisc /\ Has(ev, "code") THEN ev.code ELSE @,
                              !.afterDisc = IF ~isDisc /\ s.disc > 0 THEN @ + 1 ELSE @])]
       [] ev.e = "app_ret" ->
